@@ -752,8 +752,9 @@ impl<'a, EntryType: Entry> PathSolution<'a, EntryType> {
                 }
 
                 hops.push(hopfield);
-                // Always include AS MTU in calculation
-                mtu = std::cmp::min(mtu, as_entry.mtu as u16);
+                // Always include AS MTU in calculation. The AS MTU is a u32: saturate instead of
+                // wrapping, otherwise an AS MTU of 65536 would yield a path MTU of 0.
+                mtu = std::cmp::min(mtu, u16::try_from(as_entry.mtu).unwrap_or(u16::MAX));
             }
 
             // Put the hops in forwarding order. Needed when the path segment in the solution
